@@ -6,6 +6,7 @@
 -/
 import Lean.Data.Json
 import J2M.Pipeline
+import J2M.Render
 namespace J2M.Codec
 open Lean (Json)
 
@@ -172,5 +173,31 @@ partial def encNode : Node → J
 
 def encRepl (r : List (String × List String)) : J :=
   .arr (r.map (fun (i, ms) => Lean.Json.arr #[.str i, encStrs ms])).toArray
+
+
+def asInt (j : J) : Except String Int := match j.getInt? with | .ok n => pure n | _ => err s!"int expected: {j.compress}"
+
+def decFramework (s : String) : Except String Framework :=
+  match s with
+  | "base" => pure .base | "pydantic" => pure .pydantic | "sqlmodel" => pure .sqlmodel
+  | "attrs" => pure .attrs | "dataclasses" => pure .dataclasses
+  | _ => err s!"bad framework {s}"
+
+/-- render job: per-call options + constants extracted from the live modules -/
+def decRenderCfg (j : J) (consts : J) : Except String RenderCfg := do
+  let serInfo ← (← asArr (← field consts "serInfo")).toList.mapM (fun e => do
+    match (← asArr e).toList with
+    | [.str k, .str an, .str am] => pure (k, an, am)
+    | _ => err "bad serInfo")
+  pure { fw := ← decFramework (← asStr (← field j "fw")),
+         maxLiterals := ← asInt (← field j "maxLit"),
+         postInit := ← asBool (fieldD j "postInit" (.bool false)),
+         convertUnicode := ← asBool (fieldD j "convertUnicode" (.bool true)),
+         withMeta := ← asBool (fieldD j "meta" (.bool false)),
+         decoKwargs := ← decPairs (fieldD j "decoKwargs" (.arr #[])),
+         literalModule := ← asStr (← field consts "literalModule"),
+         blacklist := ← decStrs (← field consts "blacklist"),
+         serInfo := serInfo,
+         metadataFieldName := ← asStr (← field consts "metadataFieldName") }
 
 end J2M.Codec
